@@ -2,10 +2,10 @@
    well-formed event list. *)
 From Util Require Import Common.Base Common.ListLemmas RefCount.Model RefCount.Proofs.
 
-(* the resolver call on goroutine g returns the generation-unique value g+1, or - only together with an error - the
-   empty value 0 (`return zero, rel, err`), and never context.Canceled (the codec produces only such events, see
-   Spec.hstep) *)
-Definition val_ok (g v er : nat) : Prop := v = S g \/ (v = 0 /\ er <> 0).
+(* the resolver call on goroutine g returns the generation-unique value g+1, or the empty value 0 - with an error
+   (`return zero, rel, err`) or without one (handle 0, a nil pointer with a cleanup: `return zero, rel, nil`) -, and never
+   context.Canceled (the codec produces only such events, see Spec.hstep) *)
+Definition val_ok (g v er : nat) : Prop := v = S g \/ v = 0.
 Definition wf_ev (e : ev) : Prop :=
   match e with EResReturn g v hr er => val_ok g v er /\ er <> 1 | _ => True end.
 
@@ -239,7 +239,7 @@ Definition InvV (s : st) : Prop :=
 Definition InvR (s : st) : Prop :=
   (forall r x, nth_error (refs s) r = Some x -> rkind x = KNil -> rlast x = None) /\
   ((forall r x v e, nth_error (refs s) r = Some x -> rlast x = Some (NRes v e) ->
-      (v = 0 /\ e <> 0) \/ exists g, v = S g /\ g < length (gs s) /\ gdone (getg s g) = true) /\
+      v = 0 \/ exists g, v = S g /\ g < length (gs s) /\ gdone (getg s g) = true) /\
    (* while nothing is resolved no reference in the set believes in a result *)
    (resolved s = false -> forall r x v e, nth_error (refs s) r = Some x -> rin x = true -> rlast x <> Some (NRes v e))) /\
   (resolved s = true -> forall r x, nth_error (refs s) r = Some x -> rin x = true -> rkind x <> KNil ->
@@ -420,8 +420,9 @@ Proof.
       destruct (L3 id eq_refl) as [_ [Lid [Ldone Lrel]]].
       destruct (resolved s) eqn:Er; [|destruct (V2 eq_refl) as [X _]; congruence].
       destruct (V1 eq_refl) as [Ev1 _]. destruct (V5 eq_refl) as [_ T2]. rewrite (V3 id eq_refl) in *. unfold entry_ok. cbn [rc_id rc_val rc_target rc_stale].
-      split; [destruct Ev1 as [Ev1|[Ev1 _]]; auto|]. split.
-      { rewrite C11. destruct Ev1 as [Ev1|[Ev1 Ee]]; rewrite Ev1; cbn [Nat.eqb]; [discriminate|]. destruct (T2 Ee) as [T _]. rewrite T. discriminate. }
+      split; [destruct Ev1 as [Ev1|Ev1]; auto|]. split.
+      { rewrite C11. destruct Ev1 as [Ev1|Ev1]; rewrite Ev1; cbn [Nat.eqb]; [discriminate|].
+        destruct (V5 eq_refl) as [T1 _]. destruct (Nat.eq_dec (verr s) 0) as [E0|E0]; [destruct (T1 E0) as [T _] | destruct (T2 E0) as [T _]]; rewrite T; [rewrite Ev1|]; discriminate. }
       split.
       * apply cnt_zero_forall. intros x' Hin. destruct (In_nth_error _ _ Hin) as [r Hr].
         destruct (RB r x' Hr) as [x [Hx [A1 [A2 [_ [A4 A5]]]]]].
@@ -438,7 +439,8 @@ Proof.
     intros _. split; [exact C7|]. rewrite C9, C10, C11, C12. destruct (resolved s) eqn:Er.
     + destruct (V1 eq_refl) as [Ev1 _]. destruct (V5 eq_refl) as [T1 T2].
       split; [reflexivity|]. split; [reflexivity|]. split.
-      * destruct Ev1 as [Ev1|[Ev1 Ee]]; rewrite Ev1; cbn [Nat.eqb]; [reflexivity | apply (T2 Ee)].
+      * destruct Ev1 as [Ev1|Ev1]; rewrite Ev1; cbn [Nat.eqb]; [reflexivity|].
+        destruct (Nat.eq_dec (verr s) 0) as [E0|E0]; [destruct (T1 E0) as [T _]; congruence | apply (T2 E0)].
       * destruct (Nat.eqb_spec (verr s) 0) as [E0|E0]; [apply (T1 E0) | reflexivity].
     + destruct (V2 eq_refl) as [_ [X1 [X2 [X3 X4]]]]. auto.
   - (* InvR *) split; [|split; [split|intros; congruence]].
@@ -727,7 +729,7 @@ Proof.
   destruct (resolved s) eqn:Er.
   - destruct (V1 eq_refl) as [A1 [_ [A3 _]]]. destruct (V5 eq_refl) as [T1 T2].
     destruct (Nat.eq_dec (verr s) 0) as [E0|E0].
-    + destruct (T1 E0) as [T _]. destruct A1 as [A1|[_ A1]]; [|contradiction]. assert (vgen s = g) by lia. subst g. congruence.
+    + destruct (T1 E0) as [T _]. destruct A1 as [A1|A1]; [|lia]. assert (vgen s = g) by lia. subst g. congruence.
     + destruct (T2 E0) as [T _]. lia.
   - destruct (V2 eq_refl) as [_ [_ [_ [T _]]]]. lia.
 Qed.
@@ -740,7 +742,7 @@ Proof.
   apply cnt_zero_forall. intros y Hin. destruct (In_nth_error _ _ Hin) as [r Hr].
   destruct (rlast y) as [[|v' e']|] eqn:El; cbn [is_res]; try apply andb_false_r.
   destruct (Nat.eqb_spec (S g) v') as [E|E]; [|apply andb_false_r]. exfalso.
-  destruct (R2 r y v' e' Hr El) as [[Z _]|[g' [G1 [_ G3]]]]; [lia|]. assert (g' = g) by lia. subst g'. congruence.
+  destruct (R2 r y v' e' Hr El) as [Z|[g' [G1 [_ G3]]]]; [lia|]. assert (g' = g) by lia. subst g'. congruence.
 Qed.
 
 (* while a value (or an error) is stored, every resolve goroutine has finished: the stored generation is the newest one
@@ -855,7 +857,7 @@ Proof.
         -- unfold ids. cbn [rellog set_rellog]. rewrite map_app. apply NoDup_snoc; [exact A1 | exact NotIn].
         -- intros c' Hc'. cbn [rellog set_rellog] in Hc'. apply in_app_or in Hc'. destruct Hc' as [Hc'|[<-|[]]]; [exact (A2 c' Hc')|].
            unfold entry_ok. cbn [rc_id rc_val rc_target rc_stale].
-           split; [destruct Hv as [Hv|[Hv _]]; auto|]. split; [exact (target_not_pending s g x HV Ex Hnd)|].
+           split; [destruct Hv as [Hv|Hv]; auto|]. split; [exact (target_not_pending s g x HV Ex Hnd)|].
            split; [exact (stale_zero_unresolved s v e HR Hunres)|]. split; [exact (eq_ind_r (fun n => g < n) Hl GL)|]. split; [exact Dg | exact Rg].
         -- intros g' Hg'. destruct (A3 g' Hg') as [B1 [B2 [B3 B4]]]. split; [|auto]. unfold ids. cbn [rellog set_rellog]. rewrite map_app.
            intros Hin. apply in_app_or in Hin. destruct Hin as [Hin|[Hin|[]]]; [exact (B1 Hin)|]. cbn [rc_id c] in Hin. subst g'.
@@ -1233,7 +1235,7 @@ Section C08.
     assert (Hnd : gdone (getg s g) = false) by (unfold gdone; now rewrite Hp).
     pose proof (pending_unresolved s g _ HCh HN HV Hx Hnd) as Er.
     split; [exact Hv|]. split; [exact Er|]. split; [destruct HV as [_ [V2 _]]; apply (V2 Er)|]. split.
-    - intros r x er Hr El. destruct HR as [_ [[R2 _] _]]. destruct (R2 r x (S g) er Hr El) as [[Z _]|[g' [G1 [_ G3]]]]; [discriminate|].
+    - intros r x er Hr El. destruct HR as [_ [[R2 _] _]]. destruct (R2 r x (S g) er Hr El) as [Z|[g' [G1 [_ G3]]]]; [discriminate|].
       assert (g' = g) by lia. subst g'. congruence.
     - intros r x v' e' Hr Hin. destruct HR as [_ [[_ R4] _]]. exact (R4 Er r x v' e' Hr Hin).
   Qed.
